@@ -10,6 +10,8 @@ import Vanguard.Lemmas.Outcome
     disposition - end-of-stream frames and error bodies in the body, a gRPC status in the headers
     and a gRPC status in the trailers are counted together (`Sink.endMarks`), so success and error
     are never both signalled and no second end follows the first;
+  * **the end is last** (`end_is_last`): an end-of-stream frame or error body is the last item of
+    the body, no message data follows it;
   * **nothing after the end** (`nothing_after_the_end`, `write_after_end_is_dropped`,
     `close_after_end_changes_nothing`): once the end is written, no handler action - more writes,
     reads that fail and report errors, header changes, closing - changes anything the client can
@@ -82,7 +84,11 @@ theorem close_after_end_changes_nothing (w : World) (tb : Tables) (st : St)
   ((rwClose_ev w tb st h).2 he).1
 
 /-- **At most one end**, for every request, configuration, client body and backend behaviour. -/
-theorem at_most_one_end (w : World) (sc : Scenario) : (serve w sc).sink.endMarks ≤ 1 := serve_marks w sc
+theorem at_most_one_end (w : World) (sc : Scenario) : (serve w sc).sink.endMarks ≤ 1 := (serve_marks w sc).1
+
+/-- **No message data follows the end**: an end-of-stream frame or error body, if the response has
+    one, is the last item of the body. -/
+theorem end_is_last (w : World) (sc : Scenario) : (serve w sc).sink.endLast := (serve_marks w sc).2
 
 /-- **At least one end**: a `close` that returns has written the end. -/
 theorem completed_rpc_has_end (w : World) (tb : Tables) (st : St) (h : (rwClose w tb st).2 = false) :
@@ -96,6 +102,9 @@ theorem reported_error_ends (w : World) (st : St) (err : Err) : (reportError w s
     with a status in the headers and another one in the trailers has two marks. -/
 example : ({ items := [.raw [1], .endFrame 2 {}, .endFrame 2 {}] } : Sink).endMarks = 2 := by decide
 example : ({ hdrEndSet := true, trailerEndSet := true } : Sink).endMarks = 2 := by decide
+/-- `endLast` rejects data after an end frame. -/
+example : ¬ ({ items := [.endFrame 2 {}, .raw [1]] } : Sink).endLast := by
+  intro h; have := h (.endFrame 2 {}) (by simp); simp [Item.isEnd] at this
 /-- ... and the invariant rejects a state that claims to be open while an end frame is out. -/
 example (o : Op) (src : Source) : ¬ Good { op := o, src := src, sink := { items := [.endFrame 2 {}] } } := by
   intro h; have := h.opened rfl; simp [Sink.endMarks, Item.isEnd] at this
